@@ -32,7 +32,7 @@ ALG = 1e-9
 CAT_ALL = ['SC', 'FCC', 'BCC', 'TET', 'BCT', 'ORTH', 'MONO', 'TRIC', 'RHOM', 'HEXP', 'HCP', 'HCP15', 'DIAMOND', 'OMEGA',
            'ROMEGA', 'ROMEGA51', 'WURTZ', 'WURTZ2', 'B2', 'B2AB', 'L12', 'NBO', 'PYROPE', 'P1', 'RUMPLED2', 'FCC_OT', 'FCC_O',
            'FCC_T', 'BCC_O', 'BCC_T', 'HCP_OT', 'SQUARE', 'RECT', 'CRECT', 'TRIA', 'OBLIQUE', 'HONEY', 'RECTM', 'RECTM2',
-           'TRIA2', 'KAGOME', 'SQ2MM', 'HEXM']
+           'TRIA2', 'KAGOME', 'SQ2MM', 'HEXM', 'OMEGA_N']
 
 
 def lattvecs(dim, rmax, maxnonzero=None):
@@ -48,7 +48,7 @@ def locate(crys, x):
     for c, atoms in enumerate(crys.basis):
         for i, ua in enumerate(atoms):
             d = u - ua
-            if np.max(np.abs(d - np.round(d))) < 1e-7: return np.round(d).astype(int), (c, i)
+            if np.max(np.abs(d - np.round(d))) < max(1e-7, 20 * crys.threshold * (crys.threshold > 1e-7)): return np.round(d).astype(int), (c, i)
     return None
 
 
@@ -144,7 +144,9 @@ def check_actions(crys, rec, ops, plist, Rlist_pos, Rlist_vect, Rlist_pair, st):
                 cs = cluster.ClusterSite(ci=ind, R=R).g(crys, g)
                 st['execs'] += 3
                 if not ident and np.max(np.abs(Y[k] - X[k])) > 1e-6: st['nontrivial'] += 1
-                if ind2[0] != ind[0] or not np.issubdtype(np.asarray(R2).dtype, np.integer) or np.max(np.abs(y - Y[k])) > ALG:
+                # (a crystal given with a loosened symmetry threshold is symmetric only to that accuracy: the atom named by g_pos
+                #  must be the one within 20 thresholds of the image; a wrong lattice vector is off by O(1))
+                if ind2[0] != ind[0] or not np.issubdtype(np.asarray(R2).dtype, np.integer) or np.max(np.abs(y - Y[k])) > max(ALG, 20 * crys.threshold * (crys.threshold > 1e-7)):
                     rec.fail('g_pos', opd, 'atom {} R {} -> {} {}: Cartesian {} expected {}'.format(ind, R.tolist(), np.asarray(R2).tolist(), ind2, y.tolist(), Y[k].tolist()))
                 if np.max(np.abs(yc - Y[k])) > ALG:
                     rec.fail('g_cart', opd, 'x {} -> {} expected {}'.format(X[k].tolist(), yc.tolist(), Y[k].tolist()))
@@ -195,7 +197,7 @@ def check_actions(crys, rec, ops, plist, Rlist_pos, Rlist_vect, Rlist_pair, st):
                         ok = gi is not None and gj is not None and gi[1][0] == chem and gj[1][0] == chem
                         if ok:
                             ok = (gps.i == gi[1][1] and gps.j == gj[1][1] and np.array_equal(gps.R, gj[0] - gi[0])
-                                  and np.max(np.abs(gps.dx - np.dot(Rc, xj - xi))) < ALG and gps.__sane__(crys, chem))
+                                  and np.max(np.abs(gps.dx - np.dot(Rc, xj - xi))) < max(ALG, 40 * crys.threshold * (crys.threshold > 1e-7)) and (crys.threshold > 1e-7 or gps.__sane__(crys, chem)))      # (__sane__ is an exact test: ideal crystals only)
                         if not ok:
                             rec.fail('pairstate-g', opd, 'pair chem {} ({},{}) R {} -> {}; images of the end points {} {}'.format(
                                 chem, i, j, R.tolist(), gps, gi, gj))
